@@ -239,7 +239,7 @@ PROPS = {
         # the stores behind the codecs: every listed order, registration and stream equals its point read, in id order
         "chain": [chain("reg", 12, 20, 150, 30), chain("all", 8, 20, 100, 30)],
         "corpus": ["witness", "regress"],
-        "relevant": rel_kinds(("I", "K", "B", "E", "D ent.po", "D ent.alias", "D wrk.chain", "D wrk.alias", "D wrk.block", "D bcn.beacon", "D bcn.alias", "D bcn.ts", "D str.stream", "D str.alias"), lambda k: True),
+        "relevant": rel_kinds(("I", "K", "B", "E", "Q", "D ent.po", "D ent.alias", "D wrk.chain", "D wrk.alias", "D wrk.block", "D bcn.beacon", "D bcn.alias", "D bcn.ts", "D str.stream", "D str.alias"), lambda k: True),
         "assumptions": ["addresses are 1..255 bytes (the SDK rejects longer ones in MustLengthPrefix: proved as c18_stream_key_rejects_long)",
                         "store iteration is ascending byte order of keys (IAVL/cachekv contract, outside the model)"],
     },
